@@ -17,7 +17,8 @@ Theorem c01_source_shape :
   translated_conn = true /\ connection_connection_authenticate_ok = true /\ connection_connection_inner_start_ok = true /\
   connection_connection_connection_phase_ok = true /\ connection_connection_handle_change_user_ok = true /\
   connection_connection_command_phase_ok = true /\
-  err_access_denied_error = E_ACCESS_DENIED /\ err_user_does_not_exist = E_USER_DOES_NOT_EXIST.
+  err_access_denied_error = E_ACCESS_DENIED /\ err_user_does_not_exist = E_USER_DOES_NOT_EXIST /\
+  connection_connection_init___ok = true /\ packets_make_auth_more_data_ok = true.
 Proof. repeat split; reflexivity. Qed.
 
 Definition served (o : out) : bool :=
